@@ -526,6 +526,28 @@ def check_C13(tier, seed):
                       "inspect": A.direct(A.pr(A.var("N%"), ";", A.var("M%"), ";")) if i % 2 == 0 else None}
         rs.append(d)
     st3 = validate_sessions("C13", "rndsweep", rs, timeout=3000)
+    # interrupts at an INPUT prompt, while the fields of a reply are being assigned, and in the middle of a LIST
+    B, S_, N = A.var("A"), A.var("B$"), A.var("N%")
+    p1 = [A.line(10, A.for_(A.var("I"), A.I(1), A.I(2)), A.input_([B, S_], prompt="Q"), A.pr(B, ";", S_, ";"), A.next_()),
+          A.line(20, A.pr(A.Str("E")))]
+    p2 = [A.line(10, A.input_([N]), A.input_([A.var("A$")], caps=False)), A.line(20, A.pr(N, ";", A.var("A$")))]
+    p3 = [A.line(10, A.pr(A.Str("L")), A.list_(), A.pr(A.Str("M"))), A.line(20, A.rem("x")), A.line(30, A.let(B, A.I(1))), A.line(40, A.end())]
+    ii = []
+    run_ = A.direct(A.run())
+    cont_ = A.direct(A.cont())
+    ii.append(A.session("C13i-prompt1", p1 + [run_, A.interrupt(), cont_, A.reply("1,X"), A.interrupt(), A.direct(A.pr(B, ";")), cont_, A.reply("2,Y")]))
+    ii.append(A.session("C13i-prompt2", p2 + [run_, A.reply("5"), A.interrupt(), cont_, A.reply("zz")]))
+    ii.append(A.session("C13i-redo", p1 + [run_, A.reply("1"), A.interrupt(), cont_, A.reply("x,1"), A.reply("3,Z"), A.reply("4,W")]))
+    for idx, (nm, prog, tail) in enumerate([("reply1", p1, [A.reply("1,X"), A.reply("2,Y")]), ("reply2", p2, [A.reply("5"), A.reply("zz")]),
+                                            ("replyB", p1, [A.reply("7,Q"), A.reply("8,R")])]):
+        for which in range(len(tail)):
+            d = A.session("C13i-%s-%d" % (nm, which), prog + [run_] + tail)
+            d["sweep"] = {"cmd": len(prog) + 1 + which, "max": 40, "inspect": A.direct(A.pr(A.var("Z9"), ";")) if which else None}
+            ii.append(d)
+    d = A.session("C13i-list", p3 + [run_])
+    d["sweep"] = {"cmd": len(p3), "max": 60, "inspect": None}
+    ii.append(d)
+    st5 = validate_sessions("C13", "inputlist", ii, timeout=3000)
     # quantum independence: the same sessions with different execute() budgets
     qs = []
     base = gen_sessions(seed + 7, 12 if quick else 150, "C13q") + pick[:40 if quick else 400]
@@ -536,14 +558,15 @@ def check_C13(tier, seed):
             d["quantum"] = q
             qs.append(d)
     st4 = validate_sessions("C13", "quantum", qs, timeout=3000)
-    return finish("C13", tier, seed, "model_checking", [st0, st1, st2, st3, st4], t0,
+    return finish("C13", tier, seed, "model_checking", [st0, st1, st2, st3, st5, st4], t0,
                   rule="(1) TLC checks on the specification that, for every program of the bounded grammar, every placement "
                        "of up to MaxInts interrupts (each optionally followed by an inspecting direct statement) and every "
                        "STOP, continued by CONT, yields the output and store of the uninterrupted reference run; (2) on the "
                        "code, for each sampled program the uninterrupted run is single-stepped to count its N opcodes and "
                        "for every k in 1..N a session 'interrupt after k opcodes, [inspect], CONT, run to the end' is "
                        "recorded and validated (TLC chooses the statement boundary, pinned by the probe at the interrupt); "
-                       "(3) the same sessions are recorded under quanta 1,2,3,5,7,64,5000 and must all be behaviours of the "
+                       "interrupts at an INPUT prompt, between the fields of a reply being assigned, after a REDO, and in the "
+                       "middle of a LIST are swept the same way; (3) the same sessions are recorded under quanta 1,2,3,5,7,64,5000 and must all be behaviours of the "
                        "same deterministic specification; non-trivial = accepted sessions in which an interrupt was delivered",
                   assumptions=ASSUME_SESS + ["the BREAK line number is not compared (the property exempts the message)"],
                   nontrivial=st2.nontrivial + st3.nontrivial)
